@@ -354,6 +354,18 @@ SetSamplers(l) ==
   /\ call' = None
   /\ UNCHANGED <<pc, cfg, todo, bi, ns, hist, cur, rng, served, best, disk, alive, brk, calls, outcome, clean>>
 
+(* Calibrator.set_scheduler: a new scheduler object (its own position starts at 0) with its own samplers; table only ever extended *)
+SetScheduler(l) ==
+  /\ l \in AltLineUps
+  /\ pc = "idle"
+  /\ Kind = "rr"
+  /\ line' = l
+  /\ samp' = FreshSamp(l)
+  /\ served' = 0
+  /\ idt' = Extend(idt, l)
+  /\ call' = None
+  /\ UNCHANGED <<pc, cfg, todo, bi, ns, hist, cur, rng, best, disk, alive, brk, calls, outcome, clean>>
+
 Step ==
   \/ \E n \in CallSizes : Calibrate(n)
   \/ SeedCascade \/ StartSession \/ Refuse \/ Loop \/ Pick \/ Sample \/ DrawSeeds
@@ -363,6 +375,7 @@ Step ==
   \/ \E at \in FaultsAt : Fault(at)
   \/ Unwind \/ CreateCheckpoint \/ Restore
   \/ \E l \in AltLineUps : SetSamplers(l)
+  \/ \E l \in AltLineUps : SetScheduler(l)
 
 Next == Step /\ UNCHANGED K
 
